@@ -86,7 +86,7 @@ def _analyses():
             "(value, tangent) order and zero tangents of the right space (A13.zero/A2.tuple), VJP/JVP factor agreement of elementwise rules (A5), equal rules for two names of one NumPy function (A5.alias), linearity of every rule in its tangent (A5.lin); no JVP rule writes in place to the tangent, the arguments or the answer it is given (A9.inplace: the tangent stored on the parent node is read again by every later consumer).",
         ),
         "C03": (
-            [kc.backward_pass, km.toposort, kc.dispatch, kt.wrapper, kc.raise_discipline, ka.arraybox_table, kc.ownership, km.container_vspaces, kc.inplace_sites, a2.argnums_rules],
+            [kc.backward_pass, km.toposort, kc.dispatch, kt.wrapper, kc.raise_discipline, ka.arraybox_table, kc.ownership, kc.owned_flags, km.container_vspaces, kc.inplace_sites, a2.argnums_rules],
             "Chain rule over arbitrary graphs: path property of one backward_pass iteration (node.vjp exactly once, one add_outgrads per parent edge keyed by that parent, "
             "accumulating into the current entry), the accumulation itself (add_outgrads ownership typestate A9.proto; container spaces delegate _add/_mut_add to the same-named child operation and keep the result, A14.vspace), alignment of parents/argnums/rules in the wrapper and in all dispatch branches (A13.align), node constructor slots (A2.slot), whole-argnums rules pair each (co)tangent with its own argnum when constants are mixed in between traced arguments (A2.argnums); a cotangent fans out to several rules unchanged because no rule writes to borrowed memory (A9.inplace).",
         ),
@@ -122,12 +122,12 @@ def _analyses():
             "real/complex assignment (A4), conjugation placement in modulus-family rules (A4.modulus), conjugation parity of every rule in its (co)tangent (A4.parity: complex-linear in g except for conj itself), no |.| / Re / Im / arg / conj of an argument inside the rule of a holomorphic function (A4.holo), no real/complex decision by comparing a dtype with the Python type `complex` (A4.dtypecmp: true for complex128 only), VJP/JVP factor agreement (holomorphic ufuncs: no conjugate in either table), holomorphic_grad = grad(real o f).",
         ),
         "C10": (
-            [kc.ownership, kc.purity, kc.inplace_sites, kc.closure_reuse, kc.backward_pass, km.container_vspaces],
+            [kc.ownership, kc.owned_flags, kc.purity, kc.inplace_sites, kc.closure_reuse, kc.backward_pass, km.container_vspaces],
             "Memory ownership: typestate proof of add_outgrads over all of its paths (A9.proto), purity of VSpace._add/_scalar_mul/_covector/_inner_prod (A9.pure), every in-place "
             "site writes memory allocated by the same function (A9.inplace, decided by def-use, not whitelisted), closures re-usable (A10), the user's cotangent enters as (g, False).",
         ),
         "C11": (
-            [kc.ownership, _a9_scatter, _a2_index_pairing, km.container_vspaces, a1.types, a1.lin],
+            [kc.ownership, kc.owned_flags, _a9_scatter, _a2_index_pairing, km.container_vspaces, a1.types, a1.lin],
             "Indexing gradients: the sparse branches of add_outgrads (every order of k sparse and m dense contributions reduces to its transitions), ufunc.at scatter so repeated "
             "indices accumulate (A9.scatter), __getitem__/untake pairing on the same index and the argument's space (A2.repo), both sparse object types registered (A1.types), 'same' JVPs (A1.lin).",
         ),
@@ -137,7 +137,7 @@ def _analyses():
             "every registered container space resolves its abstract members, flatten destructures make_vjp as (unflatten, flat) and visits dict keys in sorted order; no ravel/reshape/flatten call in the library asks for a layout-relative element order (A7.order, call-site clause).",
         ),
         "C13": (
-            [a1.types, _vspace_members, a4.vspace, km.container_vspaces, km.layout_independence, kc.purity, kc.ownership],
+            [a1.types, _vspace_members, a4.vspace, km.container_vspaces, km.layout_independence, kc.purity, kc.ownership, kc.owned_flags],
             "Only the non-numeric clauses: registry agreement (A1.types), every registered space resolves zeros/ones/standard_basis/randn/_inner_prod to a concrete body and __eq__ "
             "compares type and structure fields, ComplexArrayVSpace overrides (A4.vspace), purity and mut_add(None, x) freshness (A9.pure).",
         ),
